@@ -123,7 +123,7 @@ theorem pfPair_filter_ne (acc : List (κ × α)) (a : κ) (g : κ → α) :
     · have hf : (p :: acc).filter (fun p => some p.1 ≠ some a) = acc.filter (fun p => some p.1 ≠ some a) := by
         simp [h]
       rw [hf, if_pos h, add_mul, h]
-      rw [add_comm (p.2 * g a), add_assoc]
+      rw [add_comm (p.2 * g a), add_assoc, add_comm (p.2 * g a)]
     · have hf : (p :: acc).filter (fun p => some p.1 ≠ some a)
           = p :: acc.filter (fun p => some p.1 ≠ some a) := by
         simp [h]
@@ -137,7 +137,7 @@ theorem pfWt_filter (acc : List (κ × α)) (c : κ → Bool) (k : κ) :
     by_cases hp : c p.1
     · rw [List.filter_cons_of_pos (by simpa using hp), pfWt_cons, pfWt_cons, ih]
       by_cases hk : p.1 = k
-      · rw [← hk, if_pos hp, if_pos hp]; simp
+      · rw [← hk, if_pos hp, if_pos hp, if_pos rfl]
       · simp only [if_neg hk, zero_add]
     · rw [List.filter_cons_of_neg (by simpa using hp), pfWt_cons, ih]
       by_cases hk : p.1 = k
